@@ -18,6 +18,7 @@ import (
 	"bytes"
 	"encoding/base64"
 	"encoding/binary"
+	"errors"
 	"io"
 	"net"
 	"net/netip"
@@ -587,6 +588,9 @@ type RDPCorrInfo struct {
 }
 
 func (i *RDPCorrInfo) FromBytes(src []byte) error {
+	if len(src) != int(RDPCorrInfoBytesTotal) {
+		return ErrInvalidSourceLength
+	}
 	return binary.Read(bytes.NewBuffer(src), RDPCorrInfoBytesOrder, i)
 }
 
@@ -604,6 +608,9 @@ type RDPNegReq struct {
 }
 
 func (r *RDPNegReq) FromBytes(src []byte) error {
+	if len(src) != int(RDPNegReqBytesTotal) {
+		return ErrInvalidSourceLength
+	}
 	return binary.Read(bytes.NewBuffer(src), RDPNegReqBytesOrder, r)
 }
 
@@ -693,6 +700,9 @@ type TPKTHeader struct {
 }
 
 func (h *TPKTHeader) FromBytes(src []byte) error {
+	if len(src) != int(TPKTHeaderBytesTotal) {
+		return ErrInvalidSourceLength
+	}
 	return binary.Read(bytes.NewBuffer(src), TPKTHeaderBytesOrder, h)
 }
 
@@ -711,6 +721,9 @@ type X224Crq struct {
 }
 
 func (x *X224Crq) FromBytes(src []byte) error {
+	if len(src) != int(X224CrqBytesTotal) {
+		return ErrInvalidSourceLength
+	}
 	return binary.Read(bytes.NewBuffer(src), X224CrqBytesOrder, x)
 }
 
@@ -719,6 +732,9 @@ func (x *X224Crq) ToBytes() ([]byte, error) {
 	err := binary.Write(dst, X224CrqBytesOrder, x)
 	return dst.Bytes(), err
 }
+
+// ErrInvalidSourceLength is returned by FromBytes when a fixed-size structure is given another number of bytes.
+var ErrInvalidSourceLength = errors.New("invalid source length")
 
 // Interface guards
 var (
